@@ -42,6 +42,12 @@ type Plan struct {
 	Yield          int        `json:"yield_level"`
 	BlockRebalance bool       `json:"block_rebalance_on_poll"`
 	SlowRevokeMs   int        `json:"slow_revoke_ms"` // some OnPartitionsRevoked callbacks take this long (several heartbeat intervals)
+	// a slow application: after a poll that returned records the member waits about
+	// LongProcessMs before polling again - always after its first such poll (LongFirstPoll),
+	// and with probability LongProcessP after any other
+	LongProcessMs int     `json:"long_process_ms,omitempty"`
+	LongFirstPoll bool    `json:"long_first_poll,omitempty"`
+	LongProcessP  float64 `json:"long_process_p,omitempty"`
 	Hooks          []kgo.Hook `json:"-"`              // extra hooks installed on every member (C14)
 }
 
@@ -337,7 +343,9 @@ func Run(plan Plan, watchdog time.Duration) (res *Result) {
 			kgo.AutoCommitInterval(time.Duration(plan.AutoCommitMs) * time.Millisecond),
 			kgo.SessionTimeout(45 * time.Second), kgo.HeartbeatInterval(200 * time.Millisecond), kgo.RebalanceTimeout(60 * time.Second),
 			kgo.FetchMaxWait(50 * time.Millisecond), kgo.MetadataMinAge(10 * time.Millisecond),
-			kgo.ClientID(name),
+			// kfake derives member ids from the client id and leaders sort members by id: a random
+			// leading letter makes a joiner sort before, between or after the existing members
+			kgo.ClientID(fmt.Sprintf("%c-%s", 'a'+rune(plan.Seed>>3+uint64(memSeq)*7919)%26, name)),
 			kgo.OnPartitionsAssigned(func(_ context.Context, _ *kgo.Client, parts map[string][]int32) {
 				mon.assignedStart(name, parts)
 				mon.log(Event{Kind: "assigned-end", Member: name, Parts: parts})
@@ -375,6 +383,7 @@ func Run(plan Plan, watchdog time.Duration) (res *Result) {
 		go func() {
 			defer close(m.done)
 			k := 0
+			longDone := false
 			for {
 				select {
 				case <-m.stop:
@@ -396,6 +405,12 @@ func Run(plan Plan, watchdog time.Duration) (res *Result) {
 				mon.log(Event{Kind: "poll-return", Member: name, Poll: k, Recs: recs})
 				if plan.ProcessMaxUs > 0 && len(recs) > 0 {
 					time.Sleep(time.Duration(mrng.IntN(plan.ProcessMaxUs)) * time.Microsecond)
+				}
+				// a slow application: autocommit ticks and rebalances land between this poll and
+				// the next one, when the records just returned must not be committed yet
+				if len(recs) > 0 && plan.LongProcessMs > 0 && (!longDone && plan.LongFirstPoll || mrng.Float64() < plan.LongProcessP) {
+					longDone = true
+					time.Sleep(time.Duration(plan.LongProcessMs/2+mrng.IntN(plan.LongProcessMs)) * time.Millisecond)
 				}
 				if plan.BlockRebalance {
 					cl.AllowRebalance()
